@@ -11,6 +11,21 @@ CHECKS = {
   technique="model-based property testing: exhaustive small-scope schedule enumeration + proptest-generated configs/histories against a reference model of the layered keymap (full timestamped output equality)",
   text="Every generated case is run on the real kanata state machine (real parser, real keyberon layout, simulated OS output) and on an independent reference model of the documented layered semantics; the complete timestamped press/release output must be equal. Exhaustive over all toggle schedules of <= N events (N=5 quick, 7 thorough) over 3 keys with gaps {0,1,2} on 12 configs, random beyond that. Exploration level: no claim outside the explored scope.",
   note="Trusts: the harness's reference model and its pinned tick conventions (DESIGN.md Appendix A.1), kanata's simulated_output backend as the OS boundary. Cases with >= 32 pending events are discarded (outside the statement). Known finding F18 (to-base-layer skips the base layer) is recognised only by an exact match against the model with that single rule changed."),
+ "C05": dict(
+  cat="exploration", ref="DESIGN.md §4 C05, Appendix A.2/D",
+  technique="model-based property testing: exhaustive schedule enumeration at the timeout boundary (gaps {0,1,H-1,H,H+1}) + proptest-generated interleavings of two tap-hold keys, compared with a reference model of all seven tap-hold variants",
+  text="For every tap-hold variant, hold target (key / layer), timeout H, tap-repress window, concurrent-tap-hold and rapid-event-delay setting, every toggle schedule of <= N events (N=4 quick, 5 thorough) over the tap-hold key and two other keys is run on the real code and on the reference model, which predicts which of tap/hold/timeout fires, at which tick, and the complete timestamped output (hence also that buffered keys are neither lost, nor output early, nor reordered). Random part: two tap-hold keys interleaved.",
+  note="Trusts the reference model and the pinned tick conventions (Appendix A.2). Queue-overflow (>= 32 pending) and nested waits reached only through overflow are outside the model and are discarded (covered by C01/C02 invariants)."),
+ "C06": dict(
+  cat="exploration", ref="DESIGN.md §4 C06, Appendix A.3/D",
+  technique="model-based property testing: exhaustive schedule enumeration with gaps {0,1,T-1,T,T+1} + proptest-generated histories with stacked one-shots (incl. > 16), compared with a reference model of the four one-shot end variants",
+  text="All four end variants, one-shot of key / output chord / layer-while-held, timeouts {5,30}, rapid-event-delay {0,5}: every toggle schedule of <= N events (4-5) over one or two one-shot keys and two plain keys that differ on the one-shot layer is compared, with full timestamped equality, against the reference model (next-key-only effect, expiry at exactly T, stacking and restart, held one-shot = plain key, pcancel, overflow of the 16-entry table).",
+  note="Trusts the reference model (Appendix A.3). One end-variant per configuration. Cases reaching kanata's 12-active-layer capacity or >= 32 pending events are discarded."),
+ "C17": dict(
+  cat="exploration", ref="DESIGN.md §4 C17, Appendix A.4/D",
+  technique="model-based property testing: exhaustive schedule enumeration over the tap-dance key and one other key with gaps {0,1,T-1,T,T+1} + proptest-generated longer histories, compared with a reference model of lazy and eager tap-dance",
+  text="Lazy and eager tap-dance, list lengths 1-4 with key / layer-while-held / tap-hold items, T in {5,30}: every toggle schedule of <= N events (N=5 quick, 6-7 thorough) is compared with full timestamped equality against the reference model: exactly the N-th action once, count ends on timeout / other key / exhaustion, interrupting key processed after the chosen action, no tap lost.",
+  note="Trusts the reference model (Appendix A.4) with the documented eviction rule (only counted taps are folded into the chosen action). The tree's earlier behaviour (every queued press evicted, F15) was repaired by a fix: commit; its witness is replayed on every run."),
 }
 
 NOT_YET = "check not built yet (work in progress; see DESIGN.md §4)"
